@@ -58,6 +58,8 @@ def run_download(params: dict, chooser=None) -> dict:
             bob = tw.remote('bob', '10.0.9.1', 7300)
             bob.files[REMOTE] = src
             bob.segment = params.get('segment')
+            bob.split_handshake = params.get('split')
+            bob.late_upload_failed = bool(params.get('stale_failed'))
             dis = params.get('dishonest')
             if dis == 'short':
                 bob.send_short = max(0, size - 3)
@@ -198,6 +200,7 @@ def run_upload(params: dict, chooser=None) -> dict:
             offset = params.get('offset', 0)
             bob.offset_to_send = lambda path: offset
             bob.close_after = params.get('close_after')
+            bob.split_handshake = params.get('split')
             tw.start(scan=True)
             rp = tw.remote_path_of('music/song.mp3')
             pc = bob.ensure_p_conn()
@@ -248,6 +251,15 @@ def download_cases(tier):
         for dis in ('short', 'long', 'claims-less', 'claims-more'):
             if size >= 5:
                 out.append({'kind': 'download', 'size': size, 'dishonest': dis})
+        if size in (1, 129, 8193):
+            # the ticket arrives in pieces
+            for split in (1, 3):
+                out.append({'kind': 'download', 'size': size, 'split': split})
+                out.append({'kind': 'download', 'size': size, 'split': split, 'cut': [4 + size // 2, 'reset']})
+        if size == 20000:
+            # the report about the broken first attempt arrives while the second attempt is receiving
+            for kind in ('eof', 'reset'):
+                out.append({'kind': 'download', 'size': size, 'limit': 4, 'cut': [4 + 5000, kind], 'stale_failed': True})
         # cuts (k counts the 4 ticket bytes first)
         if size <= 129:
             ks = list(range(0, size + 4 + 1))
@@ -271,6 +283,10 @@ def upload_cases(tier):
     for size in [0, 1, 128, 8192, 8193, 20000]:
         for offset in sorted({0, size // 2, size, size + 3}):
             out.append({'kind': 'upload', 'size': size, 'offset': offset})
+        if size in (1, 128, 8193):
+            for split in (1, 3, 5):
+                out.append({'kind': 'upload', 'size': size, 'split': split})
+                out.append({'kind': 'upload', 'size': size, 'split': split, 'offset': size // 2})
         if size >= 128:
             for ca in sorted({1, 127, size // 2, size - 1}):
                 out.append({'kind': 'upload', 'size': size, 'close_after': ca})
